@@ -73,6 +73,12 @@ fn run(input: RunInput) -> ScenFuture {
             .route("/echo", echo.clone())
             .route("/slow", slow)
             .route("/svc/*rest", echo.clone())
+            // (route names that share a prefix: what the route table says about "/peer/" is none of
+            // a hostile peer's business either)
+            .route("/peer/info", echo.clone())
+            .route("/peers", echo.clone())
+            .route("/a/b/c", echo.clone())
+            .route("/ax", echo.clone())
             .route("/p/:id", echo);
         // in some runs the application's service exerts backpressure (tower's ConcurrencyLimit with
         // 3-8 slots; the slowest legitimate request takes 300 ms, so even a full house of them
@@ -339,7 +345,7 @@ fn run(input: RunInput) -> ScenFuture {
                     }
                 }
                 9 => {
-                    let routes = ["", "//", "/*", "/:x", "no-slash", "/a/../b", "/\u{0}", "/%", "/{", "/*rest", "/svc/", "/svc", "/p/", "/p/a/b", "/echo/", "/ECHO"];
+                    let routes = ["", "//", "/*", "/:x", "no-slash", "/a/../b", "/\u{0}", "/%", "/{", "/*rest", "/svc/", "/svc", "/p/", "/p/a/b", "/echo/", "/ECHO", "/peer/", "/peer", "/peers/", "/peer/info/", "/a/", "/a/b/", "/a", "/ax/"];
                     let route = match r.gen_range(0..10) {
                         0 | 1 => "/".repeat(r.gen_range(1..70_000)),
                         // long routes with multi-byte characters at every alignment
